@@ -331,8 +331,28 @@ pub fn gen_case(r: &mut Rng, corpus: &Corpus, max_len: usize) -> Case {
     if bytes.is_empty() {
         bytes = b"a".to_vec();
     }
-    let settings = gen_settings(r, bytes.len());
-    Case { kind: kind.to_string(), bytes, settings }
+    let mut settings = gen_settings(r, bytes.len());
+    let mut kind = kind.to_string();
+    // exactly on / next to the window boundary len == steps * chunk_size with several steps
+    if r.chance(1, 7) && bytes.len() >= 4 {
+        let st = r.range(2, 9.min(bytes.len()));
+        let ch = bytes.len() / st;
+        if ch >= 1 {
+            settings.steps = st;
+            settings.chunk_size = ch;
+            let exact = st * ch;
+            match r.below(4) {
+                0 => bytes.truncate((exact - 1).max(1)),
+                1 => {
+                    bytes.truncate(exact);
+                    settings.chunk_size = ch.saturating_sub(1).max(1); // one byte too many per step
+                }
+                _ => bytes.truncate(exact),
+            }
+            kind.push_str("@window-boundary");
+        }
+    }
+    Case { kind, bytes, settings }
 }
 
 pub fn settings_json(s: &NormalizerSettings) -> serde_json::Value {
